@@ -563,58 +563,61 @@ def run(ctx, chk):
 def aware_value_untouched_rule(ctx, chk, rule):
     """`localize_timezone(dt, TIMEZONE)` says in which zone a NAIVE value is to be read; an aware value (an aware RELATIVE_BASE, a date whose
     string named a zone) already says so itself and must come back as it went in - same instant AND same wall clock, since the relative
-    arithmetic ('1 month ago', 'yesterday at 10:30') is done on the wall clock of the base.  Every return that an aware argument can reach
-    returns the parameter itself."""
+    arithmetic ('1 month ago', 'yesterday at 10:30') is done on the wall clock of the base.  So: every change made to the value on its way to
+    a return happens under the knowledge that it is naive, and is nothing but attaching the zone (tz.localize(dt) / dt.replace(tzinfo=tz):
+    pytz's normalize(), astimezone() or arithmetic would move a wall clock that falls into a DST gap)."""
     f = ctx.ix.func("dateparser.utils:localize_timezone")
     p = f.params()[0]
     g = CFG(f.node)
     rets = [s for s in iter_own_stmts(f.node.body) if isinstance(s, ast.Return)]
     chk.floor(rule, len(rets), 1, "returns of localize_timezone")
-    aware_seen = False
-    for r in rets:
+
+    def facts_at(node):
         facts = set()
-        for t, pol in enclosing_tests(f.node, r):
+        for t, pol in enclosing_tests(f.node, node):
             for a, q in conjuncts(t, pol):
                 txt = " ".join(ast.unparse(a).split())
                 if txt in (p + ".tzinfo", p + ".tzinfo is not None"):
                     facts.add("aware" if q else "naive")
                 if txt in (p + ".tzinfo is None", "not " + p + ".tzinfo"):
                     facts.add("naive" if q else "aware")
-        if "naive" in facts:
-            continue
-        aware_seen = aware_seen or "aware" in facts
+        return facts
+
+    def attach_only(v):
+        return isinstance(v, ast.Call) and isinstance(v.func, ast.Attribute) and (
+            (v.func.attr == "localize" and len(v.args) == 1 and ast.unparse(v.args[0]) == p and not v.keywords)
+            or (v.func.attr == "replace" and ast.unparse(v.func.value) == p and [k.arg for k in v.keywords] == ["tzinfo"] and not v.args))
+    tested = any(facts_at(n) for n in iter_own_nodes(f.node) if isinstance(n, (ast.Return, ast.Assign)))
+    for r in rets:
+        rf = facts_at(r)
         at = next(iter(g.nodes_of(r)), None)
-        same = isinstance(r.value, ast.Name) and r.value.id == p and g.reaching_defs(p).get(at, set()) <= {g.entry.id}
-        chk.ob(rule, "localize_timezone line %d: an aware value is returned as it came" % r.lineno, same,
+        v = r.value
+        aware_bad, naive_bad = [], []
+        if isinstance(v, ast.Name) and v.id == p:
+            for d in sorted(g.reaching_defs(p).get(at, set()) - {g.entry.id}):
+                st = g.nodes[d].stmt
+                txt = " ".join(ast.unparse(st).split())[:70]
+                if "naive" not in rf and "naive" not in facts_at(st):
+                    aware_bad.append(txt)           # an aware argument may pass through this assignment
+                val = getattr(st, "value", None)
+                if not (isinstance(st, ast.Assign) and attach_only(val) and g.reaching_defs(p).get(d, set()) <= {g.entry.id}):
+                    naive_bad.append(txt)
+        else:
+            txt = " ".join(ast.unparse(r).split())[:70]
+            if "naive" not in rf:
+                aware_bad.append(txt)
+            if not attach_only(v):
+                naive_bad.append(txt)
+        chk.ob(rule, "localize_timezone line %d: an aware value is returned as it came" % r.lineno, not aware_bad,
                "an aware argument reaches `%s`: the value is re-expressed / rebuilt instead of handed back, so an aware RELATIVE_BASE is "
-               "no longer the base the relative arithmetic starts from" % " ".join(ast.unparse(r).split()),
+               "no longer the base the relative arithmetic starts from" % "; ".join(aware_bad),
                key={"function": f.key, "construct": "aware passthrough"}, file=f.file, function=f.qual, line=r.lineno,
                text=" ".join(ast.unparse(r).split()))
-    # naive path: the zone is attached to the wall clock as written - tz.localize(dt) / dt.replace(tzinfo=tz) of the ARGUMENT, nothing after it
-    # (pytz's normalize() / astimezone() / arithmetic move a wall clock that falls into a DST gap)
-    for r in rets:
-        at = next(iter(g.nodes_of(r)), None)
-        if not (isinstance(r.value, ast.Name) and r.value.id == p):
-            continue
-        rd = g.reaching_defs(p).get(at, set()) - {g.entry.id}
-        if not rd:
-            continue
-        bad = []
-        for d in sorted(rd):
-            st = g.nodes[d].stmt
-            v = getattr(st, "value", None)
-            good = isinstance(st, ast.Assign) and isinstance(v, ast.Call) and isinstance(v.func, ast.Attribute) and (
-                (v.func.attr == "localize" and len(v.args) == 1 and ast.unparse(v.args[0]) == p and not v.keywords)
-                or (v.func.attr == "replace" and ast.unparse(v.func.value) == p and [k.arg for k in v.keywords] == ["tzinfo"] and not v.args))
-            good = good and g.reaching_defs(p).get(d, set()) <= {g.entry.id}
-            if not good:
-                bad.append(" ".join(ast.unparse(st).split())[:70])
         chk.ob(rule, "localize_timezone line %d: a naive value only gets the zone attached (localize / replace(tzinfo=)) - its wall clock is not moved" % r.lineno,
-               not bad, "the returned value also goes through `%s`: wall clocks inside a DST gap of TIMEZONE come back shifted" % "; ".join(bad),
+               not naive_bad, "the returned value also goes through `%s`: wall clocks inside a DST gap of TIMEZONE come back shifted" % "; ".join(naive_bad),
                key={"function": f.key, "construct": "naive attach only"}, file=f.file, function=f.qual, line=r.lineno)
-    chk.ob(rule, "localize_timezone distinguishes aware from naive arguments", aware_seen, "no return is taken on `%s.tzinfo`" % p,
+    chk.ob(rule, "localize_timezone distinguishes aware from naive arguments", tested, "nothing in it is decided on `%s.tzinfo`" % p,
            key={"function": f.key, "construct": "aware test"}, file=f.file, function=f.qual, line=f.node.lineno)
-
 
 
 def conversion_must_happen_rule(ctx, chk, rule):
